@@ -174,7 +174,7 @@ Proof.
       assert (Hp2 : p < length ivs2) by lia.
       destruct (K1 p Hp2) as (C1 & X1). destruct (KF p) as (C2 & X2 & W2).
       exists p. split; [exact Hp2|]. split.
-      + rewrite Hvar, W2. destruct (ivs_ok_geti s ivs1 p Hok1) as (_ & J & _); [lia|]. rewrite J. exact C1.
+      + rewrite Hvar, W2. destruct (ivs_ok_geti s ivs1 p Hok1) as (_ & J & _); [lia|]. rewrite J. symmetry. exact C1.
       + rewrite <- X1, <- X2. rewrite <- atype_external. split; [intro E; rewrite <- E; exact Ht|intro E; rewrite E in Ht; inversion Ht; reflexivity].
     - intros p Hp Hx. destruct (K1 p Hp) as (C1 & X1). destruct (KF p) as (C2 & X2 & W2).
       assert (HpF : p < length ivsF) by lia.
@@ -183,4 +183,638 @@ Proof.
       exists a. split; [exact A1|]. split; [exact A2|].
       rewrite A3, W2. destruct (ivs_ok_geti s ivs1 p Hok1) as (_ & J & _); [lia|]. rewrite J. exact C1. }
   destruct (model_type voi ivsF esF); try discriminate Hvalid; apply Hpack.
+Qed.
+
+(* ------------------------------------------------------------------ the unmarked first stages *)
+
+Lemma asts_facts : forall s ivs0 es0, build s = Some (ivs0, es0) ->
+  vs_issues (analyse_asts s ivs0 es0) = [] ->
+  let U := vs_ivs (analyse_asts s ivs0 es0) in
+  let voi := vs_voi (analyse_asts s ivs0 es0) in
+  ivs_ok s U /\ length U = length ivs0 /\ Forall plain U /\ kept ivs0 U /\
+  (forall p, p < length U ->
+     (iv_type (geti U p) = VVoi <-> exists v, voi = Some v /\ cls_of s v = iv_cls (geti U p))).
+Proof.
+  intros s ivs0 es0 Hb Hi. cbv zeta.
+  destruct (build_spec _ _ _ Hb) as (B1 & B2 & B3).
+  pose proof (build_fresh _ _ _ Hb) as B4.
+  destruct (analyse_asts_inv s ivs0 es0 B1 B3 B4 B2 Hi) as ((I1 & I2 & I3 & I4 & I5) & Hlen).
+  assert (HA : Forall asts_iv ivs0).
+  { eapply Forall_impl; [|exact B4]. intros v ([T|T] & _ & I); split; try exact I; rewrite T; reflexivity. }
+  assert (Hpos : forall e d, In e es0 -> In d (ie_diffs e) -> ivar_of s ivs0 (snd d) < length ivs0).
+  { intros e d He Hd. rewrite Forall_forall in B2. destruct (B2 e He) as (D & _). rewrite Forall_forall in D.
+    destruct (D d Hd) as (_ & R). apply ivar_of_spec; [exact B1|]. apply B3; [exact R|]. apply in_range_comp in R. apply R. }
+  destruct (analyse_asts_types s ivs0 es0 HA Hpos) as (T1 & _ & _).
+  split; [exact I1|]. split; [exact Hlen|].
+  split; [apply analyse_asts_plain; eapply build_plain; exact Hb|].
+  split; [apply analyse_asts_kept|].
+  intros p Hp. split.
+  - intro Ht. apply I3; assumption.
+  - intros (v & Hv & Hc). destruct (I4 v Hv) as (_ & q & Hq & Hqc & Hqt).
+    assert (q = p).
+    { apply (cls_pos_unique _ q p (proj1 I1) Hq Hp). congruence. }
+    subst q. destruct Hqt as [K|K]; [exact K|].
+    rewrite Forall_forall in T1. destruct (T1 _ (geti_In _ _ Hp)) as (A & _). rewrite K in A. discriminate.
+Qed.
+
+Lemma remark_ivs_ok : forall s f U, ivs_ok s U -> ivs_ok s (remark f 0 U).
+Proof.
+  intros s f U (Hnd & Hok). split; [rewrite remark_cls; exact Hnd|].
+  rewrite Forall_forall. intros v Hv. apply In_nth with (d := divar) in Hv. destruct Hv as (p & Hp & <-).
+  rewrite remark_length in Hp. fold (geti (remark f 0 U) p). rewrite remark_geti by exact Hp.
+  rewrite Forall_forall in Hok. specialize (Hok _ (geti_In _ _ Hp)).
+  destruct (f (0 + p)); [|exact Hok]. exact Hok.
+Qed.
+
+Lemma remark_external : forall f U p, Forall plain U -> p < length U ->
+  (iv_external (geti (remark f 0 U) p) = true <-> f p <> None).
+Proof.
+  intros f U p HU Hp. rewrite remark_geti by exact Hp. cbn [Nat.add].
+  rewrite Forall_forall in HU. destruct (HU _ (geti_In _ _ Hp)) as (A & _).
+  destruct (f p); cbn [apply_mark]; [split; [discriminate|reflexivity]|]. rewrite A. split; [discriminate|congruence].
+Qed.
+
+Lemma marked_classes_In : forall s marks k,
+  In k (marked_classes s marks) <-> exists m r, In m marks /\ xm_var m = XLocal r /\ cls_of s r = k.
+Proof.
+  intros s marks k. unfold marked_classes. induction marks as [|m t IH]; cbn [filter_map].
+  - split; [intros []|intros (m & r & [] & _)].
+  - destruct (xm_var m) as [r|j] eqn:Ev; cbn [local_of option_map].
+    + cbn [In]. rewrite IH. split.
+      * intros [H|(m1 & r1 & A & B & C)]; [exists m, r; split; [left; reflexivity|split; assumption]|].
+        exists m1, r1. split; [right; exact A|]. split; assumption.
+      * intros (m1 & r1 & [->|A] & B & C); [left; congruence|]. right. exists m1, r1. split; [exact A|]. split; assumption.
+    + rewrite IH. split.
+      * intros (m1 & r1 & A & B & C). exists m1, r1. split; [right; exact A|]. split; assumption.
+      * intros (m1 & r1 & [->|A] & B & C); [congruence|]. exists m1, r1. split; [exact A|]. split; assumption.
+Qed.
+
+(** externals_exact: in a valid result of the repaired code, a variable is of type EXTERNAL exactly when its class
+    is marked through a variable of the model and is not the class of the variable of integration. *)
+Theorem externals_exact : forall s marks r,
+  marks_in_range s marks -> xr_outcome (analyse_x true s marks) = Done r -> valid_type (r_type r) = true ->
+  forall a, In a (all_avars r) ->
+    (av_type a = AExternal <->
+     In (cls_of s (av_var a)) (marked_classes s marks) /\ is_voi_class s r (cls_of s (av_var a)) = false).
+Proof.
+  intros s marks r Hr Ho Hvalid a Ha.
+  pose proof (analyse_x_spec s marks Hr) as Hspec. rewrite Ho in Hspec. unfold spec_x in Hspec.
+  destruct (negb (resolvable s)); [discriminate|].
+  destruct (build s) as [[ivs0 es0]|] eqn:Eb; [|discriminate].
+  destruct (check_inits s ivs0 0 s) as [|i0 ir0]; [|inversion Hspec; subst; discriminate]. cbv zeta in Hspec.
+  destruct (vs_issues (analyse_asts s ivs0 es0)) as [|i1 ir1] eqn:Ei; [|inversion Hspec; subst; discriminate].
+  destruct (asts_facts s ivs0 es0 Eb Ei) as (Uok & Ulen & Uplain & Ukept & Uvoi). cbv zeta in *.
+  set (U := vs_ivs (analyse_asts s ivs0 es0)) in *. set (voi := vs_voi (analyse_asts s ivs0 es0)) in *.
+  set (f := eff s ivs0 U marks) in *.
+  destruct (build_spec _ _ _ Eb) as (B1 & B2 & B3).
+  assert (Hok2 : ivs_ok s (remark f 0 U)) by (apply remark_ivs_ok; exact Uok).
+  assert (Heq2 : Forall (eq_inv (remark f 0 U)) es0).
+  { eapply Forall_impl; [|exact B2]. intros e He. eapply eq_ok_eq_inv. rewrite remark_length, Ulen. exact He. }
+  symmetry in Hspec.
+  destruct (tail_variables s es0 voi (remark f 0 U) r _ Hok2 Heq2 Hspec Hvalid) as (Hvoi & Hvars & _).
+  destruct (Hvars a Ha) as (p & Hp & Hc & Hx). rewrite remark_length in Hp.
+  rewrite Hx. rewrite (remark_external f U p Uplain Hp).
+  rewrite remark_geti in Hc by exact Hp. rewrite apply_mark_cls in Hc.
+  destruct Ukept as (_ & Ukept). destruct (Ukept p) as (Kc & _).
+  assert (Hp0 : p < length ivs0) by lia.
+  unfold is_voi_class, voi_class. rewrite Hvoi.
+  (* the variable of integration *)
+  assert (Hv : iv_type (geti U p) = VVoi <-> match option_map (cls_of s) voi with Some c => c =? cls_of s (av_var a) | None => false end = true).
+  { rewrite (Uvoi p Hp). split.
+    - intros (v & -> & E). cbn. apply Nat.eqb_eq. congruence.
+    - destruct voi as [v|]; cbn; [|discriminate]. intro E. apply Nat.eqb_eq in E. exists v. split; [reflexivity|congruence]. }
+  (* the marks *)
+  assert (Hm : first_mark s ivs0 marks p <> None <-> In (cls_of s (av_var a)) (marked_classes s marks)).
+  { rewrite marked_classes_In. split.
+    - intro Hn. destruct (first_mark s ivs0 marks p) as [d|] eqn:Ef; [|congruence].
+      destruct (first_mark_some _ _ _ _ _ Ef) as (m & r0 & M1 & M2 & M3). exists m, r0. split; [exact M1|]. split; [exact M2|].
+      assert (Hrange : in_range s r0 = true).
+      { unfold marks_in_range in Hr. rewrite Forall_forall in Hr. specialize (Hr m M1). rewrite M2 in Hr. exact Hr. }
+      destruct (key_position s ivs0 r0 B1 B3 Hrange) as (_ & K2 & _). rewrite M3 in K2. congruence.
+    - intros (m & r0 & M1 & M2 & M3) Hn.
+      assert (Hrange : in_range s r0 = true).
+      { unfold marks_in_range in Hr. rewrite Forall_forall in Hr. specialize (Hr m M1). rewrite M2 in Hr. exact Hr. }
+      destruct (key_position s ivs0 r0 B1 B3 Hrange) as (K1 & K2 & _).
+      apply (first_mark_none _ _ _ _ Hn m r0 M1 M2).
+      apply (cls_pos_unique ivs0 _ _ (proj1 B1) K1 Hp0). congruence. }
+  unfold f, eff. destruct (vtype_eqb (iv_type (geti U p)) VVoi) eqn:Et.
+  - apply vtype_eqb_eq in Et. apply Hv in Et. rewrite Et. split; [congruence|intros (_ & K); discriminate].
+  - assert (Hnv : match option_map (cls_of s) voi with Some c => c =? cls_of s (av_var a) | None => false end = false).
+    { apply Bool.not_true_is_false. intro E. apply Hv in E. apply vtype_eqb_eq in E. congruence. }
+    rewrite Hnv. rewrite Hm. split; [intro K; split; [exact K|reflexivity]|intros (K & _); exact K].
+Qed.
+
+(* ------------------------------------------------------------------ marks that do not matter *)
+
+Corollary same_effect_same_analysis' : forall s marks marks',
+  marks_in_range s marks -> marks_in_range s marks' ->
+  (forall ivs0 es0, build s = Some (ivs0, es0) -> vs_issues (analyse_asts s ivs0 es0) = [] ->
+     forall p, p < length ivs0 ->
+       eff s ivs0 (vs_ivs (analyse_asts s ivs0 es0)) marks p = eff s ivs0 (vs_ivs (analyse_asts s ivs0 es0)) marks' p) ->
+  xr_outcome (analyse_x true s marks) = xr_outcome (analyse_x true s marks') /\
+  xr_has_ext (analyse_x true s marks) = xr_has_ext (analyse_x true s marks').
+Proof.
+  intros s marks marks' H1 H2 He.
+  pose proof (analyse_x_spec s marks H1) as A. pose proof (analyse_x_spec s marks' H2) as B.
+  assert (E : spec_x s marks = spec_x s marks').
+  { unfold spec_x. destruct (negb (resolvable s)); [reflexivity|].
+    destruct (build s) as [[ivs0 es0]|] eqn:Eb; [|reflexivity].
+    destruct (check_inits s ivs0 0 s); [|reflexivity]. cbv zeta.
+    destruct (vs_issues (analyse_asts s ivs0 es0)) eqn:Ei; [|reflexivity].
+    f_equal. apply remark_ext. intros p Hp. cbn [Nat.add]. apply (He ivs0 es0 eq_refl Ei).
+    destruct (analyse_asts_kept s ivs0 es0) as (L & _). lia. }
+  rewrite E in A. rewrite <- B in A. inversion A. split; reflexivity.
+Qed.
+
+Lemma marks_in_range_filter : forall s f marks, marks_in_range s marks -> marks_in_range s (filter f marks).
+Proof. intros s f marks H. unfold marks_in_range in *. apply Forall_filter. exact H. Qed.
+
+(* a variable of another model *)
+Lemma first_mark_local : forall s ivs0 marks p,
+  first_mark s ivs0 (filter is_local_mark marks) p = first_mark s ivs0 marks p.
+Proof.
+  intros s ivs0 marks p. induction marks as [|m t IH]; [reflexivity|].
+  cbn [filter]. unfold is_local_mark at 1. cbn [first_mark]. destruct (xm_var m) as [r|k] eqn:Ev; cbn [local_of].
+  - cbn [first_mark]. rewrite Ev. cbn [local_of]. rewrite IH. reflexivity.
+  - exact IH.
+Qed.
+
+Theorem foreign_marks_ignored : forall s marks, marks_in_range s marks ->
+  xr_outcome (analyse_x true s marks) = xr_outcome (analyse_x true s (filter is_local_mark marks)) /\
+  xr_has_ext (analyse_x true s marks) = xr_has_ext (analyse_x true s (filter is_local_mark marks)).
+Proof.
+  intros s marks Hr. apply same_effect_same_analysis; [exact Hr|apply marks_in_range_filter; exact Hr|].
+  intros ivs0 es0 _ p _. unfold eff. rewrite first_mark_local. reflexivity.
+Qed.
+
+(* another member of the same class *)
+Lemma ivar_of_same_class : forall s ivs r r', cls_of s r = cls_of s r' -> ivar_of s ivs r = ivar_of s ivs r'.
+Proof.
+  intros s ivs r r' H. unfold ivar_of, internal_variable. unfold cls_of in H. rewrite H.
+  destruct (find_index _ ivs); reflexivity.
+Qed.
+
+Lemma first_mark_same_class : forall s ivs0 marks marks' p, Forall2 (same_class_mark s) marks marks' ->
+  first_mark s ivs0 marks p = first_mark s ivs0 marks' p.
+Proof.
+  intros s ivs0 marks marks' p H. induction H as [|m m' t t' (Hd & Hv) Ht IH]; [reflexivity|].
+  cbn [first_mark]. destruct (xm_var m) as [r|k]; destruct (xm_var m') as [r'|k']; try contradiction; cbn [local_of].
+  - rewrite (ivar_of_same_class s ivs0 r r' Hv). unfold ext_deps, local_deps. rewrite Hd, IH. reflexivity.
+  - exact IH.
+Qed.
+
+Theorem member_choice_irrelevant : forall s marks marks',
+  marks_in_range s marks -> marks_in_range s marks' -> Forall2 (same_class_mark s) marks marks' ->
+  xr_outcome (analyse_x true s marks) = xr_outcome (analyse_x true s marks') /\
+  xr_has_ext (analyse_x true s marks) = xr_has_ext (analyse_x true s marks').
+Proof.
+  intros s marks marks' H1 H2 H. apply same_effect_same_analysis; [exact H1|exact H2|].
+  intros ivs0 es0 _ p _. unfold eff. rewrite (first_mark_same_class s ivs0 marks marks' p H). reflexivity.
+Qed.
+
+(* the variable of integration *)
+Theorem voi_marks_ignored : forall s marks, marks_in_range s marks ->
+  xr_outcome (analyse_x true s marks) = xr_outcome (analyse_x true s (filter (fun m => negb (is_voi_mark s m)) marks)) /\
+  xr_has_ext (analyse_x true s marks) = xr_has_ext (analyse_x true s (filter (fun m => negb (is_voi_mark s m)) marks)).
+Proof.
+  intros s marks Hr. apply same_effect_same_analysis'; [exact Hr|apply marks_in_range_filter; exact Hr|].
+  intros ivs0 es0 Eb Ei p Hp. unfold eff.
+  destruct (vtype_eqb (iv_type (geti (vs_ivs (analyse_asts s ivs0 es0)) p)) VVoi) eqn:Et; [reflexivity|].
+  destruct (asts_facts s ivs0 es0 Eb Ei) as (Uok & Ulen & Uplain & Ukept & Uvoi). cbv zeta in *.
+  destruct (build_spec _ _ _ Eb) as (B1 & B2 & B3).
+  set (U := vs_ivs (analyse_asts s ivs0 es0)) in *.
+  induction marks as [|m t IH]; [reflexivity|].
+  inversion Hr as [|? ? Hm Ht]; subst. specialize (IH Ht).
+  cbn [filter]. unfold is_voi_mark at 1. unfold model_voi. rewrite Eb.
+  destruct (xm_var m) as [r|k] eqn:Ev.
+  - destruct (vs_voi (analyse_asts s ivs0 es0)) as [v|] eqn:Evoi.
+    + destruct (cls_of s r =? cls_of s v) eqn:Ec; cbn [negb].
+      * (* a mark on the variable of integration: it lands on a position of type VVoi, hence not on p *)
+        cbn [first_mark]. rewrite Ev. cbn [local_of].
+        destruct (key_position s ivs0 r B1 B3 Hm) as (K1 & K2 & _).
+        destruct (ivar_of s ivs0 r =? p) eqn:Eq; [|exact IH]. exfalso.
+        apply Nat.eqb_eq in Eq. rewrite Eq in K2. apply Nat.eqb_eq in Ec.
+        assert (Hvoi : iv_type (geti U p) = VVoi).
+        { apply Uvoi; [lia|]. exists v. split; [reflexivity|]. destruct Ukept as (_ & Uk). destruct (Uk p) as (Kc & _). congruence. }
+        rewrite Hvoi in Et. discriminate.
+      * cbn [first_mark]. rewrite Ev. cbn [local_of]. rewrite IH. reflexivity.
+    + cbn [negb first_mark]. rewrite Ev. cbn [local_of]. rewrite IH. reflexivity.
+  - cbn [negb first_mark]. rewrite Ev. cbn [local_of]. exact IH.
+Qed.
+
+(* ------------------------------------------------------------------ a marked variable is never reported as unused *)
+
+(* every external variable has a type *)
+Definition ext_known (ivs : list ivar) : Prop := forall q, iv_external (geti ivs q) = true -> iv_type (geti ivs q) <> VUnknown.
+
+Lemma check_known : forall s nla st e st' e' b,
+  check s nla st e = (st', e', b) -> eq_inv (cs_ivs st) e ->
+  forall q, iv_type (geti (cs_ivs st) q) <> VUnknown -> iv_type (geti (cs_ivs st') q) <> VUnknown.
+Proof.
+  intros s nla st e st' e' b H Hinv q Hq.
+  destruct (etype_eqb (ie_type e) EUnknown) eqn:Et.
+  2:{ unfold check in H. rewrite Et in H. cbn [negb] in H. inversion H; subst. exact Hq. }
+  assert (Hty : ie_type e = EUnknown) by (destruct (ie_type e); try discriminate; reflexivity).
+  pose proof (check_cases s nla st e st' e' b H Hty Hinv) as Hc. cbv zeta in Hc.
+  destruct Hc as [(_ & _ & _ & (_ & K))|[(p & _ & _ & _ & _ & _ & Hoth & _ & _ & Hp & _)|(inits & _ & _ & _ & _ & _ & Hin & Hout)]].
+  - destruct (K q) as (_ & [E|[(_ & E)|E]]); rewrite E; try exact Hq; discriminate.
+  - destruct (Nat.eq_dec q p) as [->|Hne].
+    + destruct Hp as [(A & _)|(_ & B)]; [contradiction|]. rewrite B. exact Hq.
+    + rewrite (Hoth q Hne). exact Hq.
+  - destruct (in_dec Nat.eq_dec q inits) as [Hi|Hi].
+    + destruct (Hin q Hi) as (_ & _ & E & _). rewrite E. discriminate.
+    + destruct (Hout q Hi) as (E & _). rewrite E. exact Hq.
+Qed.
+
+Lemma evolves_external : forall s a b q, evolves s a b -> iv_external (geti b q) = iv_external (geti a q).
+Proof.
+  intros s a b q (L & H). destruct (Nat.lt_ge_cases q (length a)) as [Hq|Hq].
+  - destruct (H q Hq) as (_ & E & _). exact E.
+  - rewrite !geti_beyond by lia. reflexivity.
+Qed.
+
+Lemma sweep_known : forall s nla es st st' es' b,
+  sweep s nla st es = (st', es', b) -> Forall (eq_inv (cs_ivs st)) es ->
+  (forall q, iv_type (geti (cs_ivs st) q) <> VUnknown -> iv_type (geti (cs_ivs st') q) <> VUnknown).
+Proof.
+  intros s nla es. induction es as [|e r IH]; intros st st' es' b H Hinv q Hq; cbn [sweep] in H.
+  - inversion H; subst. exact Hq.
+  - destruct (check s nla st e) as [[st1 e1] b1] eqn:Ec. destruct (sweep s nla st1 r) as [[st2 r1] b2] eqn:Es.
+    inversion H; subst. inversion Hinv as [|? ? He Hr]; subst.
+    destruct (check_inv _ _ _ _ _ _ _ Ec He) as (Hev & _).
+    eapply IH; [exact Es| |].
+    + eapply Forall_impl; [|exact Hr]. intros x Hx. eapply eq_inv_evolves; eassumption.
+    + eapply check_known; eassumption.
+Qed.
+
+Lemma ext_known_step : forall s a b, evolves s a b ->
+  (forall q, iv_type (geti a q) <> VUnknown -> iv_type (geti b q) <> VUnknown) -> ext_known a -> ext_known b.
+Proof.
+  intros s a b Hev Hk Ha q Hq. apply Hk. apply Ha. rewrite <- (evolves_external s a b q Hev). exact Hq.
+Qed.
+
+Lemma loop_ext_known : forall s fuel loopn nla st es st' es',
+  loop s fuel loopn nla st es = Some (st', es') -> Forall (eq_inv (cs_ivs st)) es ->
+  (loopn = 1 \/ loopn = 2 \/ ext_known (cs_ivs st)) -> ext_known (cs_ivs st').
+Proof.
+  intros s fuel. induction fuel as [|f IH]; intros loopn nla st es st' es' H Hinv Hstart; [discriminate|].
+  cbn [loop] in H. destruct (sweep s nla st es) as [[st1 es1] rel] eqn:Hs.
+  destruct (sweep_inv _ _ _ _ _ _ _ Hs Hinv) as (A1 & A2).
+  pose proof (sweep_known _ _ _ _ _ _ _ Hs Hinv) as Hk.
+  assert (Hstart1 : loopn = 1 \/ loopn = 2 \/ ext_known (cs_ivs st1)).
+  { destruct Hstart as [E|[E|E]]; [left; exact E|right; left; exact E|right; right]. eapply ext_known_step; eassumption. }
+  destruct rel; [eapply IH; eassumption|].
+  destruct ((loopn =? 1) || (loopn =? 3)) eqn:E13.
+  { eapply IH; [exact H|exact A2|].
+    apply orb_true_iff in E13. destruct E13 as [E|E]; apply Nat.eqb_eq in E; subst loopn.
+    - right. left. reflexivity.
+    - right. right. destruct Hstart1 as [K|[K|K]]; [discriminate|discriminate|exact K]. }
+  destruct (loopn =? 2) eqn:E2.
+  - set (ivs2 := map (fun v => if iv_external v && vtype_eqb (iv_type v) VUnknown then set_type v VInitialised else v) (cs_ivs st1)) in *.
+    assert (Hk2 : ext_known ivs2).
+    { intros q Hq. destruct (Nat.lt_ge_cases q (length (cs_ivs st1))) as [Lq|Lq].
+      - unfold ivs2 in *. rewrite geti_map in * by exact Lq.
+        destruct (iv_external (geti (cs_ivs st1) q) && vtype_eqb (iv_type (geti (cs_ivs st1) q)) VUnknown) eqn:Eb; [discriminate|].
+        rewrite Hq in Eb. cbn [andb] in Eb. intro K. rewrite K in Eb. discriminate.
+      - rewrite geti_beyond in Hq by (unfold ivs2; rewrite map_length; exact Lq). discriminate. }
+    destruct (existsb iv_external (cs_ivs st1)).
+    + eapply IH; [exact H| |right; right; exact Hk2]. cbn [cs_ivs].
+      assert (Hev : evolves s (cs_ivs st1) ivs2).
+      { apply map_evolves. intro v. destruct (iv_external v && vtype_eqb (iv_type v) VUnknown) eqn:E; [|apply step_ok_refl].
+        apply andb_true_iff in E. destruct E as (_ & E). apply vtype_eqb_eq in E. apply set_type_step. rewrite E.
+        unfold tok. repeat split; intros; try discriminate; auto. }
+      eapply Forall_impl; [|exact A2]. intros x Hx. eapply eq_inv_evolves; eassumption.
+    + inversion H; subst. exact Hk2.
+  - inversion H; subst. destruct Hstart1 as [K|[K|K]]; [subst; discriminate|subst; discriminate|exact K].
+Qed.
+
+Lemma validate_vars_unused : forall ivs vidx ivs1 n iss i,
+  validate_vars ivs vidx = (ivs1, n, iss) -> In i iss -> is_rule i = RUnused ->
+  exists v, In v ivs /\ iv_type v = VUnknown /\ is_item i = iv_var v.
+Proof.
+  intros ivs. induction ivs as [|v r IH]; intros vidx ivs1 n iss i H Hin Hr; cbn [validate_vars] in H.
+  - inversion H; subst. destruct Hin.
+  - destruct (iv_type v) eqn:Et;
+      try (destruct (validate_vars r vidx) as [[r1 n1] i1] eqn:E; inversion H; subst;
+           destruct (IH _ _ _ _ _ E Hin Hr) as (w & W1 & W2 & W3); exists w; (split; [right; exact W1|]); split; assumption).
+    + destruct (validate_vars r vidx) as [[r1 n1] i1] eqn:E. inversion H; subst. destruct Hin as [<-|Hin].
+      * exists v. split; [left; reflexivity|]. split; [exact Et|reflexivity].
+      * destruct (IH _ _ _ _ _ E Hin Hr) as (w & W1 & W2 & W3). exists w. split; [right; exact W1|]. split; assumption.
+    + destruct (validate_vars r vidx) as [[r1 n1] i1] eqn:E. inversion H; subst. destruct Hin as [<-|Hin]; [discriminate|].
+      destruct (IH _ _ _ _ _ E Hin Hr) as (w & W1 & W2 & W3). exists w. split; [right; exact W1|]. split; assumption.
+    + destruct (validate_vars r (S vidx)) as [[r1 n1] i1] eqn:E. inversion H; subst.
+      destruct (IH _ _ _ _ _ E Hin Hr) as (w & W1 & W2 & W3). exists w. split; [right; exact W1|]. split; assumption.
+    + destruct (validate_vars r vidx) as [[r1 n1] i1] eqn:E. inversion H; subst. destruct Hin as [<-|Hin]; [discriminate|].
+      destruct (IH _ _ _ _ _ E Hin Hr) as (w & W1 & W2 & W3). exists w. split; [right; exact W1|]. split; assumption.
+Qed.
+
+Definition not_unused (i : issue) : Prop := is_rule i <> RUnused.
+
+Lemma over_fold_rules : forall l l0 o i,
+  Forall not_unused i ->
+  Forall not_unused (snd (fold_left (fun a p => let '(l, o, i) := a in
+                                if mem_nat p o then a
+                                else (upd l p (set_type (geti l p) VOverconstrained), o ++ [p],
+                                      i ++ [mkIssue RComputedTwice (iv_var (geti l p))]))
+                    l (l0, o, i))).
+Proof.
+  intros l. induction l as [|p t IH]; intros l0 o i Hi; cbn [fold_left]; [exact Hi|].
+  destruct (mem_nat p o); [apply IH; exact Hi|]. apply IH. apply Forall_app. split; [exact Hi|].
+  constructor; [|constructor]. unfold not_unused. cbn. discriminate.
+Qed.
+
+Lemma requalify_fold_rules : forall es ivs done over iss ivs' done' over' iss',
+  fold_left requalify_step es (ivs, done, over, iss) = (ivs', done', over', iss') ->
+  Forall not_unused iss -> Forall not_unused iss'.
+Proof.
+  intros es. induction es as [|e t IH]; intros ivs done over iss ivs' done' over' iss' H Hi; cbn [fold_left] in H.
+  - inversion H; subst. exact Hi.
+  - destruct (requalify_step (ivs, done, over, iss) e) as [[[ivs1 done1] over1] iss1] eqn:E.
+    eapply IH; [exact H|]. unfold requalify_step in E.
+    destruct (ie_type e); try (inversion E; subst; exact Hi).
+    + destruct (existsb _ (ie_all e)); inversion E; subst; exact Hi.
+    + destruct (length (ie_unknown e) <? length (ie_sibs e) + 1); [|inversion E; subst; exact Hi].
+      pose proof (over_fold_rules (ie_unknown e) ivs over iss Hi) as G.
+      destruct (fold_left _ (ie_unknown e) (ivs, over, iss)) as [[ivs2 over2] iss2]. inversion E; subst. exact G.
+Qed.
+
+Lemma check_inits_comp_rules : forall s ivs c n i, Forall not_unused (check_inits_comp s ivs c i n).
+Proof.
+  intros s ivs c n. induction n as [|m IH]; intro i; cbn [check_inits_comp]; [constructor|].
+  apply Forall_app. split; [|apply IH].
+  destruct (negb (vref_eqb (c, i) (iv_var (geti ivs (ivar_of s ivs (c, i))))) && has_init (get_var s (c, i))).
+  - constructor; [|constructor]. unfold not_unused. cbn. discriminate.
+  - destruct (v_init (get_var s (iv_var (geti ivs (ivar_of s ivs (c, i)))))) as [| |nm]; try constructor.
+    destruct (find_var _ nm); [destruct (vtype_eqb _ VInitialised); [constructor|]|];
+      (constructor; [|constructor]); unfold not_unused; cbn; discriminate.
+Qed.
+
+Lemma check_inits_rules : forall s ivs cs c, Forall not_unused (check_inits s ivs c cs).
+Proof.
+  intros s ivs cs. induction cs as [|k r IH]; intro c; cbn [check_inits]; [constructor|].
+  apply Forall_app. split; [apply check_inits_comp_rules|apply IH].
+Qed.
+
+Lemma diff_event_rules : forall s st d, Forall not_unused (vs_issues st) -> Forall not_unused (vs_issues (diff_event s st d)).
+Proof.
+  intros s [ivs voi iss] [t x] H. unfold diff_event. cbn [vs_ivs vs_voi vs_issues] in *.
+  destruct voi as [v0|].
+  - destruct (v_cls (get_var s v0) =? v_cls (get_var s t)); cbn [vs_issues]; apply Forall_app; split; try exact H; try constructor.
+    + unfold not_unused. cbn. discriminate.
+    + constructor.
+  - destruct (filter (fun r => has_init (get_var s r)) (members s (v_cls (get_var s t)))) as [|a l] eqn:Ef; cbn [vs_issues].
+    + rewrite app_nil_r. exact H.
+    + apply Forall_app. split; [exact H|]. rewrite Forall_forall. intros i Hi. apply in_map_iff in Hi.
+      destruct Hi as (y & <- & _). unfold not_unused. cbn. discriminate.
+Qed.
+
+Lemma analyse_asts_rules : forall s ivs es, Forall not_unused (vs_issues (analyse_asts s ivs es)).
+Proof.
+  intros s ivs es. unfold analyse_asts.
+  assert (G : forall es st, Forall not_unused (vs_issues st) ->
+              Forall not_unused (vs_issues (fold_left (fun st e => fold_left (diff_event s) (ie_diffs e) st) es st))).
+  { clear. intros es. induction es as [|e t IH]; intros st H; cbn [fold_left]; [exact H|]. apply IH.
+    generalize (ie_diffs e) st H. clear. intros ds. induction ds as [|d r IH]; intros st H; cbn [fold_left]; [exact H|].
+    apply IH. apply diff_event_rules. exact H. }
+  apply G. constructor.
+Qed.
+
+(** underconstrained_rescued, the part that holds in general: a class marked as external is never among the
+    variables reported as unused ("the type of variable ... is unknown"), whatever else is wrong with the model. *)
+Theorem marked_never_unused : forall s marks r,
+  marks_in_range s marks -> xr_outcome (analyse_x true s marks) = Done r ->
+  forall i, In i (r_issues r) -> is_rule i = RUnused -> ~ In (cls_of s (is_item i)) (marked_classes s marks).
+Proof.
+  intros s marks r Hr Ho i Hi Hrule Hmarked.
+  pose proof (analyse_x_spec s marks Hr) as Hspec. rewrite Ho in Hspec. unfold spec_x in Hspec.
+  destruct (negb (resolvable s)); [discriminate|].
+  destruct (build s) as [[ivs0 es0]|] eqn:Eb; [|discriminate].
+  destruct (check_inits s ivs0 0 s) as [|i0 ir0] eqn:Eci.
+  2:{ inversion Hspec as [[Hres Hh]]. rewrite Hres in Hi. cbn [invalid_result r_issues] in Hi.
+      pose proof (check_inits_rules s ivs0 s 0) as K. rewrite Eci in K. rewrite Forall_forall in K. exact (K i Hi Hrule). }
+  cbv zeta in Hspec.
+  destruct (vs_issues (analyse_asts s ivs0 es0)) as [|i1 ir1] eqn:Ei.
+  2:{ inversion Hspec as [[Hres Hh]]. rewrite Hres in Hi. cbn [invalid_result r_issues] in Hi.
+      pose proof (analyse_asts_rules s ivs0 es0) as K. rewrite Ei in K. rewrite Forall_forall in K. exact (K i Hi Hrule). }
+  destruct (asts_facts s ivs0 es0 Eb Ei) as (Uok & Ulen & Uplain & Ukept & Uvoi). cbv zeta in *.
+  set (U := vs_ivs (analyse_asts s ivs0 es0)) in *. set (voi := vs_voi (analyse_asts s ivs0 es0)) in *.
+  set (f := eff s ivs0 U marks) in *.
+  destruct (build_spec _ _ _ Eb) as (B1 & B2 & B3).
+  assert (Hok2 : ivs_ok s (remark f 0 U)) by (apply remark_ivs_ok; exact Uok).
+  assert (Heq2 : Forall (eq_inv (remark f 0 U)) es0).
+  { eapply Forall_impl; [|exact B2]. intros e He. eapply eq_ok_eq_inv. rewrite remark_length, Ulen. exact He. }
+  unfold tail_x in Hspec.
+  destruct (loop s (loop_fuel es0) 1 false (mkCs (remark f 0 U) 0 0) es0) as [[st es1]|] eqn:El; [|discriminate].
+  inversion Hspec as [[Hres Hh]]. clear Hspec Hh.
+  destruct (loop_inv _ _ _ _ _ _ _ _ El Heq2) as (L1 & L2). cbn [cs_ivs] in *.
+  pose proof (loop_ext_known _ _ _ _ _ _ _ _ El Heq2 (or_introl eq_refl)) as Hknown. cbn [cs_ivs] in *.
+  unfold finish in Hres.
+  destruct (validate_vars (cs_ivs st) (cs_vidx st)) as [[ivs1 vidx1] iss1] eqn:Ev.
+  destruct iss1 as [|j1 jr1].
+  - (* no issue from the variables: nothing else reports an unused variable *)
+    destruct (fold_left requalify_step (nla_group ivs1 es1) (ivs1, [], [], [])) as [[[ivsF esF] ov] iss2] eqn:Er.
+    pose proof (requalify_fold_rules _ _ _ _ _ _ _ _ _ Er (Forall_nil _)) as K.
+    destruct iss2 as [|j2 jr2].
+    + destruct (model_type voi ivsF esF); subst r; cbn in Hi; destruct Hi.
+    + subst r. cbn [invalid_result r_issues] in Hi. rewrite Forall_forall in K. exact (K i Hi Hrule).
+  - subst r. cbn [invalid_result r_issues] in Hi.
+    destruct (validate_vars_unused _ _ _ _ _ i Ev Hi Hrule) as (v & Hv & Htype & Hitem).
+    apply In_nth with (d := divar) in Hv. destruct Hv as (q & Hq & Hnth). fold (geti (cs_ivs st) q) in Hnth. subst v.
+    pose proof L1 as Hev0. destruct L1 as (Llen & Lstep). rewrite remark_length in Llen.
+    assert (HqU : q < length U) by lia.
+    assert (Hq2 : q < length (remark f 0 U)) by (rewrite remark_length; exact HqU).
+    destruct (Lstep q Hq2) as (C1 & X1 & _ & V1 & T1).
+    (* not external, since an external variable is never left unknown *)
+    assert (Hnx : iv_external (geti (remark f 0 U) q) = false).
+    { destruct (iv_external (geti (remark f 0 U) q)) eqn:E; [|reflexivity]. exfalso.
+      apply (Hknown q); [congruence|exact Htype]. }
+    assert (Hf : f q = None).
+    { destruct (f q) eqn:E; [|reflexivity]. exfalso.
+      assert (K : iv_external (geti (remark f 0 U) q) = true) by (apply remark_external; [exact Uplain|exact HqU|congruence]).
+      congruence. }
+    (* not the variable of integration either: that one keeps its type *)
+    unfold f, eff in Hf. destruct (vtype_eqb (iv_type (geti U q)) VVoi) eqn:Et.
+    { apply vtype_eqb_eq in Et. rewrite remark_geti in T1 by exact HqU. rewrite apply_mark_type in T1.
+      destruct T1 as (_ & T2 & _). destruct (T2 Et) as [K|K]; rewrite K in Htype; discriminate. }
+    (* so no mark lands on it *)
+    apply marked_classes_In in Hmarked. destruct Hmarked as (m & r0 & M1 & M2 & M3).
+    assert (Hrange : in_range s r0 = true).
+    { unfold marks_in_range in Hr. rewrite Forall_forall in Hr. specialize (Hr m M1). rewrite M2 in Hr. exact Hr. }
+    destruct (key_position s ivs0 r0 B1 B3 Hrange) as (K1 & K2 & _).
+    apply (first_mark_none _ _ _ _ Hf m r0 M1 M2).
+    apply (cls_pos_unique ivs0 _ _ (proj1 B1) K1); [lia|].
+    rewrite K2, M3, Hitem.
+    (* the class of the item is the class of the internal variable *)
+    assert (Hokst : ivs_ok s (cs_ivs st)) by (eapply evolves_ivs_ok; [exact Hok2|exact Hev0]).
+    destruct (ivs_ok_geti s (cs_ivs st) q Hokst Hq) as (_ & J & _). rewrite J, C1.
+    rewrite remark_geti by exact HqU. rewrite apply_mark_cls. destruct Ukept as (_ & Uk). destruct (Uk q) as (Kc & _).
+    exact Kc.
+Qed.
+
+(* ------------------------------------------------------------------ the messages *)
+
+Lemma vref_eqb_eq : forall a b, vref_eqb a b = true <-> a = b.
+Proof.
+  intros [a1 a2] [b1 b2]. unfold vref_eqb. cbn. rewrite andb_true_iff, !Nat.eqb_eq. split; [intros (A & B); congruence|intro H; inversion H; auto].
+Qed.
+
+(* the variable that the analyser holds for the class of r when the marks are read (mVariable of its internal variable) *)
+Definition primary_at_marking (s : system) (r : vref) : vref :=
+  match build s with Some (ivs0, _) => iv_var (geti ivs0 (ivar_of s ivs0 r)) | None => r end.
+
+Section Messages.
+Variable s : system.
+Variable marks : list xmark.
+Variables (ivs0 : list ivar) (es0 : list ieq).
+Hypothesis Hres : resolvable s = true.
+Hypothesis Eb : build s = Some (ivs0, es0).
+Hypothesis Eci : check_inits s ivs0 0 s = [].
+Hypothesis Ei : vs_issues (analyse_asts s ivs0 es0) = [].
+Hypothesis Hr : marks_in_range s marks.
+
+Lemma foreign_message : forall m k, In m marks -> xm_var m = XForeign k ->
+  In (mkXissue XDifferentModel (XForeign k)) (xr_messages (analyse_x true s marks)).
+Proof.
+  intros m k Hm Hv. rewrite (analyse_x_messages s marks ivs0 es0 Hres Eb Eci Ei). apply in_or_app. left.
+  unfold foreign_messages. clear - Hm Hv. induction marks as [|m0 t IH]; [destruct Hm|].
+  cbn [filter_map]. destruct Hm as [->|Hm].
+  - rewrite Hv. left. reflexivity.
+  - destruct (xm_var m0); [|right]; apply IH; exact Hm.
+Qed.
+
+Lemma local_mark_entry : forall m r, In m marks -> xm_var m = XLocal r ->
+  let key := iv_var (geti ivs0 (ivar_of s ivs0 r)) in
+  let U := vs_ivs (analyse_asts s ivs0 es0) in
+  cls_of s key = cls_of s r /\ ivar_of s U key = ivar_of s ivs0 r /\ ivar_of s ivs0 r < length ivs0 /\
+  exists vs, In (key, vs) (pev_of s ivs0 marks []).
+Proof.
+  intros m r Hm Hv. cbv zeta.
+  destruct (build_spec _ _ _ Eb) as (B1 & B2 & B3).
+  assert (Hrange : in_range s r = true).
+  { unfold marks_in_range in Hr. rewrite Forall_forall in Hr. specialize (Hr m Hm). rewrite Hv in Hr. exact Hr. }
+  destruct (key_position s ivs0 r B1 B3 Hrange) as (K1 & K2 & K3).
+  destruct (ivs_ok_geti s ivs0 _ B1 K1) as (_ & J & _).
+  split; [congruence|]. split.
+  - rewrite (ivar_of_cls_eq s _ ivs0 _ (kept_cls _ _ (analyse_asts_kept s ivs0 es0))). exact K3.
+  - split; [exact K1|]. pose proof (pev_of_keys s ivs0 marks [] m r Hm Hv) as Hk.
+    apply in_map_iff in Hk. destruct Hk as ([k vs] & E & Hin). cbn in E. subst k. exists vs. exact Hin.
+Qed.
+
+Lemma voi_message : forall m r, In m marks -> xm_var m = XLocal r -> is_voi_mark s m = true ->
+  exists key, cls_of s key = cls_of s r /\ In (mkXissue XVoi (XLocal key)) (xr_messages (analyse_x true s marks)).
+Proof.
+  intros m r Hm Hv Hvoi.
+  destruct (local_mark_entry m r Hm Hv) as (Kc & Kp & Kl & vs & Hen). cbv zeta in *.
+  set (key := iv_var (geti ivs0 (ivar_of s ivs0 r))) in *. exists key. split; [exact Kc|].
+  rewrite (analyse_x_messages s marks ivs0 es0 Hres Eb Eci Ei). apply in_or_app. right.
+  apply in_flat_map. exists (key, vs). split; [exact Hen|]. unfold entry_msg. rewrite Kp.
+  destruct (asts_facts s ivs0 es0 Eb Ei) as (Uok & Ulen & Uplain & Ukept & Uvoi). cbv zeta in *.
+  unfold is_voi_mark, model_voi in Hvoi. rewrite Hv, Eb in Hvoi.
+  destruct (vs_voi (analyse_asts s ivs0 es0)) as [v|] eqn:Ev; [|discriminate]. apply Nat.eqb_eq in Hvoi.
+  destruct (build_spec _ _ _ Eb) as (B1 & B2 & B3).
+  assert (Hrange : in_range s r = true).
+  { unfold marks_in_range in Hr. rewrite Forall_forall in Hr. specialize (Hr m Hm). rewrite Hv in Hr. exact Hr. }
+  destruct (key_position s ivs0 r B1 B3 Hrange) as (_ & K2 & _).
+  assert (Ht : iv_type (geti (vs_ivs (analyse_asts s ivs0 es0)) (ivar_of s ivs0 r)) = VVoi).
+  { apply Uvoi; [lia|]. exists v. split; [reflexivity|]. destruct Ukept as (_ & Uk). destruct (Uk (ivar_of s ivs0 r)) as (C & _). congruence. }
+  rewrite Ht. cbn. left. reflexivity.
+Qed.
+
+Lemma non_primary_message : forall m r, In m marks -> xm_var m = XLocal r ->
+  (forall m' r', In m' marks -> xm_var m' = XLocal r' -> cls_of s r' = cls_of s r -> r' <> primary_at_marking s r) ->
+  exists key rule, cls_of s key = cls_of s r /\ (rule = XVoi \/ rule = XUsePrimary) /\
+                   In (mkXissue rule (XLocal key)) (xr_messages (analyse_x true s marks)).
+Proof.
+  intros m r Hm Hv Hnone.
+  destruct (local_mark_entry m r Hm Hv) as (Kc & Kp & Kl & vs & Hen). cbv zeta in *.
+  unfold primary_at_marking in Hnone. rewrite Eb in Hnone.
+  set (key := iv_var (geti ivs0 (ivar_of s ivs0 r))) in *.
+  assert (Hnp : existsb (vref_eqb key) vs = false).
+  { apply Bool.not_true_is_false. intro K. apply existsb_exists in K. destruct K as (x & Hx & Ex). apply vref_eqb_eq in Ex. subst x.
+    destruct (pev_of_members s ivs0 marks [] key vs key Hen Hx) as [(vs0 & [] & _)|(m1 & A & B & C)].
+    apply (Hnone m1 key A B); [|reflexivity].
+    destruct (local_mark_entry m1 key A B) as (Kc1 & _). cbv zeta in Kc1. rewrite C in Kc1. congruence. }
+  exists key. exists (if vtype_eqb (iv_type (geti (vs_ivs (analyse_asts s ivs0 es0)) (ivar_of s (vs_ivs (analyse_asts s ivs0 es0)) key))) VVoi then XVoi else XUsePrimary).
+  split; [exact Kc|]. split; [destruct (vtype_eqb _ VVoi); auto|].
+  rewrite (analyse_x_messages s marks ivs0 es0 Hres Eb Eci Ei). apply in_or_app. right.
+  apply in_flat_map. exists (key, vs). split; [exact Hen|]. unfold entry_msg. rewrite Hnp. cbn [negb]. rewrite !orb_true_r. left. reflexivity.
+Qed.
+
+End Messages.
+
+(* ------------------------------------------------------------------ the code before the repair is C05's analyse_ext *)
+
+Lemma check_fold_unfixed : forall s voi pe ivs xi, fst (fold_left (check_step false s voi) pe (ivs, xi)) = ivs.
+Proof.
+  intros s voi pe. induction pe as [|[key vs] t IH]; intros ivs xi; cbn [fold_left]; [reflexivity|].
+  unfold check_step at 2. cbn [andb]. apply IH.
+Qed.
+
+Theorem analyse_x_unfixed : forall s marks, xr_outcome (analyse_x false s marks) = analyse_ext s (local_marks marks).
+Proof.
+  intros s marks. unfold analyse_x, analyse_ext.
+  destruct (negb (resolvable s)); [reflexivity|].
+  destruct (build s) as [[ivs0 es0]|]; [|reflexivity].
+  destruct (check_inits s ivs0 0 s) as [|i0 ir0]; [|reflexivity].
+  pose proof (mark_step_local s marks ivs0 [] []) as Hm.
+  destruct (fold_left (mark_step s) marks (ivs0, [], [])) as [[ivs1 pe] xi1] eqn:Em. cbn [fst] in Hm. rewrite <- Hm.
+  destruct (vs_issues (analyse_asts s ivs1 es0)) as [|i1 ir1]; [|reflexivity].
+  pose proof (check_fold_unfixed s (vs_voi (analyse_asts s ivs1 es0)) pe (vs_ivs (analyse_asts s ivs1 es0)) []) as Hc.
+  destruct (fold_left (check_step false s (vs_voi (analyse_asts s ivs1 es0))) pe (vs_ivs (analyse_asts s ivs1 es0), [])) as [ivs2 xi2] eqn:Ec.
+  cbn [fst] in Hc. subst ivs2.
+  destruct (loop s (loop_fuel es0) 1 false (mkCs (vs_ivs (analyse_asts s ivs1 es0)) 0 0) es0) as [[st es1]|]; reflexivity.
+Qed.
+
+(* without marks both codes are the analysis of C05 *)
+Corollary analyse_x_no_marks : forall fixed s, xr_outcome (analyse_x fixed s []) = analyse s.
+Proof.
+  intros fixed s. unfold analyse_x, analyse, analyse_ext.
+  destruct (negb (resolvable s)); [reflexivity|].
+  destruct (build s) as [[ivs0 es0]|]; [|reflexivity].
+  destruct (check_inits s ivs0 0 s) as [|i0 ir0]; [|reflexivity]. cbn [fold_left].
+  destruct (vs_issues (analyse_asts s ivs0 es0)) as [|i1 ir1]; [|reflexivity]. cbn [fold_left].
+  destruct (loop s (loop_fuel es0) 1 false (mkCs (vs_ivs (analyse_asts s ivs0 es0)) 0 0) es0) as [[st es1]|]; reflexivity.
+Qed.
+
+(* ------------------------------------------------------------------ equations of a result have distinct positions *)
+
+Lemma filter_map_pos : forall (f : nat -> option aeq) l,
+  (forall j a, f j = Some a -> ae_pos a = j) ->
+  map ae_pos (filter_map f l) = filter (fun j => match f j with Some _ => true | None => false end) l.
+Proof.
+  intros f l H. induction l as [|j t IH]; cbn [filter_map filter map]; [reflexivity|].
+  destruct (f j) as [a|] eqn:E; [|exact IH]. cbn [map]. rewrite (H j a E), IH. reflexivity.
+Qed.
+
+Lemma package_pos_nodup : forall s ty voi ivs es, NoDup (all_pos (package s ty voi ivs es)).
+Proof.
+  intros s ty voi ivs es. unfold all_pos, package. cbn [r_eqs].
+  rewrite map_map. cbn [clean_deps ae_pos].
+  match goal with |- NoDup (map _ (filter_map ?f ?l)) => change (NoDup (map ae_pos (filter_map f l))); rewrite (filter_map_pos f l) end.
+  - apply NoDup_filter. apply seq_NoDup.
+  - intros j a Hj. unfold make_aeq in Hj.
+    match type of Hj with match ?t with _ => _ end = _ => destruct t; [|discriminate] end.
+    inversion Hj; subst. reflexivity.
+Qed.
+
+Lemma finish_pos_nodup : forall s voi ivs es vidx, NoDup (all_pos (finish s voi ivs es vidx)).
+Proof.
+  intros s voi ivs es vidx. unfold finish.
+  destruct (validate_vars ivs vidx) as [[ivs1 vidx1] iss1]. destruct iss1; [|constructor].
+  destruct (fold_left requalify_step (nla_group ivs1 es) (ivs1, [], [], [])) as [[[ivs2 es2] ov] iss2].
+  destruct iss2; [|constructor].
+  destruct (model_type voi ivs2 es2); try apply package_pos_nodup. constructor.
+Qed.
+
+Theorem analysis_pos_nodup : forall fixed s marks r, xr_outcome (analyse_x fixed s marks) = Done r -> NoDup (all_pos r).
+Proof.
+  intros fixed s marks r H. unfold analyse_x in H.
+  destruct (negb (resolvable s)); [discriminate|].
+  destruct (build s) as [[ivs0 es0]|]; [|discriminate].
+  destruct (check_inits s ivs0 0 s) as [|i0 ir0]; [|inversion H; subst; constructor].
+  destruct (fold_left (mark_step s) marks (ivs0, [], [])) as [[ivs1 pe] xi1].
+  destruct (vs_issues (analyse_asts s ivs1 es0)) as [|i1 ir1]; [|inversion H; subst; constructor].
+  destruct (fold_left (check_step fixed s (vs_voi (analyse_asts s ivs1 es0))) pe (vs_ivs (analyse_asts s ivs1 es0), [])) as [ivs2 xi2].
+  destruct (loop s (loop_fuel es0) 1 false (mkCs ivs2 0 0) es0) as [[st es1]|]; [|discriminate].
+  inversion H; subst. apply finish_pos_nodup.
 Qed.
